@@ -472,6 +472,11 @@ Definition obs_gen (a : result (option dt)) (b : result dt) (c : result (Z * Z *
   (a, b, c, d).
 Definition vcase (x : value) (o : obs) : value * obs := (x, o).
 Definition unpacks (l : list (N * N)) : list N := flat_map (fun p => unpack (fst p) (snd p)) l.
+(* same in base 2^8 (texts below U+0100, bytes), chained in short chunks: u8 len v rest *)
+Definition unpack8_step (st : list N * N) : list N * N :=
+  (N.land (snd st) 255 :: fst st, N.shiftr (snd st) 8).
+Definition u8 (len v : N) (rest : list N) : list N := fst (N.iter len unpack8_step ([], v)) ++ rest.
+Definition u21 (len v : N) (rest : list N) : list N := unpack len v ++ rest.
 
 Definition c08_check (c : value * obs) : bool :=
   let '(x, (o1, o2, o3, o4)) := c in
@@ -501,6 +506,34 @@ Definition c08_show_iso (c : Z * dt * N * list N * suffix * bool * list N * obs)
 Definition iso_case (k y m d h mi s : Z) (sep : N) (fr : list N) (sf : suffix) (as_bytes : bool) (text : list N) (o : obs)
   : Z * dt * N * list N * suffix * bool * list N * obs :=
   (k, (y, m, d, h, mi, s, 0), sep, fr, sf, as_bytes, text, o).
+
+(* the exhaustive day sweep sends the fields and a polynomial hash of the text CPython
+   rendered instead of the text itself (the text is re-rendered here and must hash alike) *)
+Definition text_hash (t : list N) : N :=
+  fold_left (fun a c => N.land (a * 1000003 + c) 1099511627775) t 0%N.
+Definition digits_step (st : list N * Z) : list N * Z := (dig (snd st mod 10) :: fst st, snd st / 10).
+Definition digits_of (len : N) (v : Z) : list N := fst (N.iter len digits_step ([], v)).
+(* one sweep case in small numbers: form, date, second of day, separator (0 = T, 1 = space),
+   fraction length and value, suffix kind (0 none, 1 Z, 2 +hh:mm, 3 +hhmm, 4 -hh:mm, 5 -hhmm)
+   and offset, bytes?, hash; the observation is the expected one for the form (the harness
+   uses this form only when the implementation returned exactly that, the general form otherwise) *)
+Definition isoh_case (k y m d sod sep : Z) (frlen : N) (frv sk oh om : Z) (as_bytes : bool) (hash : N)
+  : Z * dt * N * list N * suffix * bool * N * obs :=
+  let h := sod / 3600 in let mi := (sod / 60) mod 60 in let s := sod mod 60 in
+  let sf := if sk =? 0 then SNone else if sk =? 1 then SZ
+            else if sk =? 2 then SPlus true oh om else if sk =? 3 then SPlus false oh om
+            else if sk =? 4 then SMinus true oh om else SMinus false oh om in
+  let o := if k =? 0 then obs_dt y m d h mi s 0 else if k =? 1 then obs_dt y m d h mi 0 0 else obs_dt y m d 0 0 0 0 in
+  (k, (y, m, d, h, mi, s, 0), if sep =? 0 then cT else cSp, digits_of frlen frv, sf, as_bytes, hash, o).
+Definition c08_check_isoh (c : Z * dt * N * list N * suffix * bool * N * obs) : bool :=
+  let '(k, f, sep, fr, sf, as_bytes, hash, o) := c in
+  let text := render_kind k f sep fr sf in
+  N.eqb (text_hash text) hash &&
+  c08_check (if as_bytes then VBytes (utf8_encode text) else VStr text, o).
+Definition c08_show_isoh (c : Z * dt * N * list N * suffix * bool * N * obs) :=
+  let '(k, f, sep, fr, sf, as_bytes, hash, o) := c in
+  let text := render_kind k f sep fr sf in
+  (text, text_hash text, parse_iso (if as_bytes then VBytes (utf8_encode text) else VStr text)).
 
 (* the modelled library function on its own: datetime.fromtimestamp(n, tz=utc) *)
 Definition c08_check_fromts (c : Z * result dt) : bool :=
